@@ -157,7 +157,7 @@ func canonKey(k string) string {
 	for i, p := range parts {
 		if strings.HasSuffix(p, sha1Empty) {
 			if b, err := hex.DecodeString(strings.TrimSuffix(p, sha1Empty)); err == nil {
-				parts[i] = string(b)
+				parts[i] = string(b) + "$" // the constant suffix (hex of sha1 of nothing) that ends every variant
 			}
 		}
 	}
@@ -360,8 +360,17 @@ func genHistCase(r *Rng, id int, tier string) *Sx {
 		for _, q := range pods {
 			if q.owner == owner && owner != "" && q.ns == ns {
 				p.labels = q.labels
-				if r.P(80) {
+				switch {
+				case r.P(70):
 					p.ports = q.ports
+				case r.P(60) && len(q.ports) > 0:
+					// the same port names on other numbers: a rule's named port converts differently for the two pods
+					p.ports = append([]CPort{}, q.ports...)
+					for j := range p.ports {
+						if p.ports[j].Name != "" {
+							p.ports[j].Port = Pick(r, portPool)
+						}
+					}
 				}
 			}
 		}
@@ -404,6 +413,41 @@ func genHistCase(r *Rng, id int, tier string) *Sx {
 	Shuffle(r, prios)
 	anpN := 0
 	var queries []*Sx
+	// scenario: two pods of one owner declare one port name on different numbers, a policy admits that name, and the
+	// same numeric question is put about both pods (verdicts are cached per owner)
+	if r.P(30) {
+	scenario:
+		for _, a := range pods {
+			for _, b := range pods {
+				if a.name == b.name || a.owner == "" || a.owner != b.owner || a.ns != b.ns {
+					continue
+				}
+				for _, pa := range a.ports {
+					for _, pb := range b.ports {
+						if pa.Name == "" || pa.Name != pb.Name || pa.Port == pb.Port {
+							continue
+						}
+						proto := pa.Proto
+						if proto == "" {
+							proto = "TCP"
+						}
+						np := &NetPol{NS: a.ns, Name: "npn", PodSel: Sel{ML: a.labels}, Types: []string{"I"},
+							Ingress: []NPRule{{Ports: []NPPort{{Proto: pa.Proto, Kind: "name", Name: pa.Name}}}}}
+						add(Obj{Kind: "pod", Pod: &PodObj{NS: a.ns, Name: a.name, Labels: a.labels, Ports: a.ports, OwnerKind: "ReplicaSet", OwnerName: a.owner, HostIP: "192.168.49.2"}})
+						add(Obj{Kind: "pod", Pod: &PodObj{NS: b.ns, Name: b.name, Labels: b.labels, Ports: b.ports, OwnerKind: "ReplicaSet", OwnerName: b.owner, HostIP: "192.168.49.2"}})
+						add(Obj{Kind: "np", Np: np})
+						src := Pick(r, pods)
+						for _, x := range [][2]string{{a.name, fmt.Sprint(pa.Port)}, {b.name, fmt.Sprint(pa.Port)}, {b.name, fmt.Sprint(pb.Port)}, {a.name, fmt.Sprint(pb.Port)}} {
+							q := Ls(At("q"), At(src.ns+"/"+src.name), At(a.ns+"/"+x[0]), At(proto), At(x[1]))
+							queries = append(queries, q)
+							c.Add(q)
+						}
+						break scenario
+					}
+				}
+			}
+		}
+	}
 	n := r.Range(5, 40)
 	if tier == "thorough" {
 		n = r.Range(5, 60)
@@ -414,6 +458,17 @@ func genHistCase(r *Rng, id int, tier string) *Sx {
 			var q *Sx
 			if len(queries) > 0 && r.P(55) {
 				q = Pick(r, queries)
+				if r.P(25) {
+					// the same question about another pod of the same owner (the cache shares verdicts between them)
+					q0 := q
+					for _, a := range pods {
+						for _, b := range pods {
+							if a.name != b.name && a.owner != "" && a.owner == b.owner && a.ns == b.ns && q0.L[2].A == a.ns+"/"+a.name {
+								q = Ls(At("q"), q0.L[1], At(b.ns+"/"+b.name), q0.L[3], q0.L[4])
+							}
+						}
+					}
+				}
 			} else {
 				end := func() string {
 					if r.P(15) {
@@ -423,6 +478,11 @@ func genHistCase(r *Rng, id int, tier string) *Sx {
 					return p.ns + "/" + p.name
 				}
 				port := fmt.Sprint(Pick(r, portPool))
+				if r.P(30) { // a declared container port of some pod
+					if pp := Pick(r, pods).ports; len(pp) > 0 {
+						port = fmt.Sprint(Pick(r, pp).Port)
+					}
+				}
 				if r.P(4) {
 					port = Pick(r, []string{"http", "-", "0", "70000"})
 				}
